@@ -14,8 +14,8 @@ import (
 // no *schema.Schema (all stages but "schemas"); base names may repeat across schemas.
 type tbl struct{ name, id int }
 
-func qbase(q int) int   { return q % 100 }
-func qschema(q int) int { return q / 100 }
+func qbase(q int) int    { return q % 100 }
+func qschema(q int) int  { return q / 100 }
 func qname(s, n int) int { return 100*s + n }
 
 // schg: a schema-level change in front of the table changes ('S' AddSchema, 'T' DropSchema, 'U' ModifySchema).
@@ -70,6 +70,10 @@ func (s *scenario) hasObjects() bool {
 	}
 	return false
 }
+
+// objMode: stage "objects" -- change sets with enum objects, tied to the extended model (SortObjModel.v)
+var objMode bool
+
 type scenario struct {
 	cat catalogue
 	pre []schg // schema-level changes, in front of cs in the change list handed to the planners
@@ -103,7 +107,7 @@ func (s *scenario) caseLine() string {
 		fmt.Fprintf(&b, " %c %d", p.kind, p.s)
 	}
 	fmt.Fprintf(&b, " %d", len(s.cs))
-	ext := s.hasObjects() || s.hasTypes() // only the oracle-only stage "objects": the model has no enum types
+	ext := objMode || s.hasObjects() || s.hasTypes() // stage "objects": the extended model (SortObjModel.v) reads the enum types
 	types := func(ts []int) string {
 		if !ext {
 			return ""
@@ -138,6 +142,16 @@ func (s *scenario) caseLine() string {
 					fmt.Fprintf(&b, " c %d %d", tc.k, tc.e)
 				}
 			}
+		}
+	}
+	if objMode { // the type part of the catalogue: existing enum names, (table, enum name) uses
+		fmt.Fprintf(&b, " T %d", len(s.cat.types))
+		for _, k := range s.cat.types {
+			fmt.Fprintf(&b, " %d", k)
+		}
+		fmt.Fprintf(&b, " %d", len(s.cat.uses))
+		for _, u := range s.cat.uses {
+			fmt.Fprintf(&b, " %d %d %d", qbase(u[0]), qschema(u[0]), u[1])
 		}
 	}
 	return b.String()
@@ -286,6 +300,9 @@ func (s *scenario) build(intT string) []schema.Change {
 					case 1:
 						from := schema.NewIntColumn(col.Name, intT)
 						m.Changes = append(m.Changes, &schema.ModifyColumn{From: from, To: col, Change: schema.ChangeType})
+					case 3: // the column leaves the enum type
+						to := schema.NewIntColumn(col.Name, intT)
+						m.Changes = append(m.Changes, &schema.ModifyColumn{From: col, To: to, Change: schema.ChangeType})
 					default:
 						m.Changes = append(m.Changes, &schema.DropColumn{C: col})
 					}
@@ -427,6 +444,8 @@ func observe(c schema.Change) (ochg, bool) {
 			case *schema.ModifyColumn:
 				if e := enumID(tc.To.Type); e >= 0 {
 					o.tcs = append(o.tcs, otc{kind: 'c', k: 1, e: e})
+				} else if e := enumID(tc.From.Type); e >= 0 {
+					o.tcs = append(o.tcs, otc{kind: 'c', k: 3, e: e})
 				} else {
 					return o, false
 				}
@@ -472,6 +491,13 @@ func (o ochg) String() string {
 				parts = append(parts, fmt.Sprintf("c%d.%d", tc.k, tc.e))
 			}
 		}
+	}
+	if objMode && (o.kind == 'A' || o.kind == 'D') { // the enum types of the table's columns (detachReferences copies the table)
+		ts := make([]string, len(o.types))
+		for i, e := range o.types {
+			ts[i] = fmt.Sprint(e)
+		}
+		return fmt.Sprintf("%c:%d:%s:%s", o.kind, o.t, strings.Join(parts, ","), strings.Join(ts, ","))
 	}
 	return fmt.Sprintf("%c:%d:%s", o.kind, o.t, strings.Join(parts, ","))
 }
